@@ -406,15 +406,111 @@ def binop(ev, op, a, b, node, fr):
     return out
 
 
+def nd_materialize(x):
+    """A Num array of concrete shape whose elements are a function of per-axis index symbols -> explicit NdArr
+    (None when the shape is not concrete or an axis longer than 1 has no index symbol, i.e. elements are not enumerable)."""
+    if not isinstance(x, Num) or not x.shape or x.tag == "data":
+        return None
+    try:
+        shp = [int(s_) for s_ in x.shape]
+    except Exception:
+        return None
+    axes = x.axes or (None,) * len(shp)
+    n = 1
+    for s_ in shp:
+        n *= s_
+    if n > 4096:
+        return None
+    free = x.expr.free_symbols
+    for s_, ax in zip(shp, axes):
+        if s_ > 1 and ax is None:
+            return None
+    import itertools
+    items = []
+    for combo in itertools.product(*[range(s_) for s_ in shp]):
+        sub = {ax: c for ax, c in zip(axes, combo) if ax is not None and ax in free}
+        items.append(Num(x.expr.subs(sub) if sub else x.expr, kind="number" if x.kind == "array" else x.kind, unit=x.unit, isfloat=x.isfloat))
+    out = NdArr(shp, items)
+    out.dtype = x.dtype
+    return out
+
+
+def nd_broadcast(ev, op, a: NdArr, b: NdArr, node, fr):
+    import itertools
+    nd = max(a.ndim, b.ndim)
+    sa = (1,) * (nd - a.ndim) + a.shape
+    sb = (1,) * (nd - b.ndim) + b.shape
+    shape = []
+    for x, y in zip(sa, sb):
+        if x == y or y == 1:
+            shape.append(x)
+        elif x == 1:
+            shape.append(y)
+        else:
+            ev.trace.append(("broadcast-mismatch", sa, sb, node))
+            raise_value_error(ev, f"operands could not be broadcast together with shapes {a.shape} {b.shape}", node, fr)
+
+    def strides(sh):
+        st, acc = [], 1
+        for s_ in reversed(sh):
+            st.insert(0, 0 if s_ == 1 else acc)
+            acc *= s_
+        return st
+    sta, stb = strides(sa), strides(sb)
+    items = []
+    for combo in itertools.product(*[range(s_) for s_ in shape]):
+        ia = sum(c * t for c, t in zip(combo, sta))
+        ib = sum(c * t for c, t in zip(combo, stb))
+        items.append(binop(ev, op, a.items[ia], b.items[ib], node, fr))
+    out = NdArr(shape, items)
+    da_, db_ = getattr(a, "dtype", None), getattr(b, "dtype", None)
+    out.dtype = promote_dtype(da_, db_)
+    return out
+
+
+def promote_dtype(da_, db_):
+    """numpy result dtype of an arithmetic op between two arrays (None = unknown)."""
+    order = ["bool_", "int8", "uint8", "int16", "int32", "int64", "float16", "float32", "float64", "complex64", "complex128"]
+
+    def nm(d):
+        return d.dotted[6:] if isinstance(d, ExtV) and d.dotted.startswith("numpy.") else None
+    x, y = nm(da_), nm(db_)
+    if x is None or y is None or x not in order or y not in order:
+        return da_ or db_
+    hi = max(x, y, key=order.index)
+    lo = min(x, y, key=order.index)
+    if hi == "complex64" and lo in ("float64", "int32", "int64"):
+        hi = "complex128"
+    if hi == "float32" and lo in ("int32", "int64"):
+        hi = "float64"
+    if hi == "float16" and lo in ("int16", "int32", "int64"):
+        hi = "float64" if lo != "int16" else "float32"
+    return ExtV("numpy." + hi)
+
+
+def raise_value_error(ev, msg, node, fr):
+    from .symeval import Raised
+    raise Raised("ValueError", node, msg)
+
+
 def nd_binop(ev, op, a, b, node, fr):
     if isinstance(a, NdArr) and isinstance(b, NdArr):
         if a.shape == b.shape:
-            return NdArr(a.shape, [binop(ev, op, x, y, node, fr) for x, y in zip(a.items, b.items)])
-        ev.unsupported("NdArr broadcasting between different shapes", node, fr)
+            out = NdArr(a.shape, [binop(ev, op, x, y, node, fr) for x, y in zip(a.items, b.items)])
+            out.dtype = promote_dtype(getattr(a, "dtype", None), getattr(b, "dtype", None))
+            return out
+        return nd_broadcast(ev, op, a, b, node, fr)
     if isinstance(a, NdArr):
+        mb = nd_materialize(b)
+        if mb is not None:
+            return nd_binop(ev, op, a, mb, node, fr)
         if isinstance(b, Num) and b.shape and any((not s.is_number) or s != 1 for s in b.shape) and b.tag == "data":
             return Num(F["Opq"](sp.Symbol("bcast_nd"), b.expr), kind="array", shape=b.shape, backend=b.backend, dtype=b.dtype, tag="data")
-        return a.map(lambda x: binop(ev, op, x, b, node, fr))
+        out = a.map(lambda x: binop(ev, op, x, b, node, fr))
+        return out
+    ma = nd_materialize(a)
+    if ma is not None:
+        return nd_binop(ev, op, ma, b, node, fr)
     if isinstance(a, Num) and a.tag == "data":
         return Num(F["Opq"](sp.Symbol("bcast_nd"), a.expr), kind="array", shape=a.shape, backend=a.backend, dtype=a.dtype, tag="data")
     return b.map(lambda y: binop(ev, op, a, y, node, fr))
@@ -1894,6 +1990,17 @@ def h_zeros(ev, args, kwargs, fr, node, fill=0):
     return arr
 
 
+def h_full(ev, args, kwargs, fr, node):
+    fill = kwargs.get("fill_value", args[1] if len(args) > 1 else None)
+    if not isinstance(fill, Num) or not fill.expr.is_number:
+        ev.unsupported("np.full with a non-literal fill value", node, fr)
+    rest = [args[0]] + list(args[2:])
+    out = h_zeros(ev, rest, kwargs, fr, node, fill=fill.expr)
+    if isinstance(out, NdArr) and getattr(out, "dtype", None) is None:
+        out.dtype = ExtV("numpy.float64") if (fill.isfloat or not fill.expr.is_integer) else ExtV("numpy.int64")
+    return out
+
+
 def h_array(ev, args, kwargs, fr, node):
     x = args[0]
     if isinstance(x, StrV):
@@ -1996,8 +2103,36 @@ def _fft_like(fname):
         n = kwargs.get("n", args[1] if len(args) > 1 else NONE)
         if isinstance(x, StackV):
             return x.map(lambda e: h(ev, [e] + list(args[1:]), kwargs, fr, node))
-        if isinstance(x, NdArr) and fname in ("FFT", "IFFT"):
-            out = nd_dft(ev, x, ev.concrete_int(axis), None if isinstance(n, NoneV) else ev.concrete_int(n), fname == "IFFT")
+        if isinstance(x, NdArr) and fname in ("FFT", "IFFT", "FFT_rfft", "IFFT_irfft"):
+            ax_i = ev.concrete_int(axis) % x.ndim
+            n_i = None if isinstance(n, NoneV) else ev.concrete_int(n)
+            if fname == "FFT_rfft":
+                full = nd_dft(ev, x, ax_i, n_i, False)
+                keep = full.shape[ax_i] // 2 + 1
+                out = nd_getitem(ev, full, TupleV([SliceV(NONE, NONE, NONE)] * ax_i + [SliceV(NONE, Num(keep), NONE)]), fr, node)
+            elif fname == "IFFT_irfft":
+                m = x.shape[ax_i]
+                n_out = 2 * (m - 1) if n_i is None else n_i
+                if n_out < 1:
+                    raise_value_error(ev, f"Invalid number of data points ({n_out}) specified", node, fr)
+                # Hermitian completion: X[n-k] = conj(X[k]); the imaginary part of X[0] (and of X[n/2] for even n) is discarded
+                new_shape = list(x.shape)
+                new_shape[ax_i] = n_out
+                full = NdArr(new_shape, [Num(0)] * (len(x.items) // m * n_out))
+                for src, dst in zip(nd_lines(x, ax_i), nd_lines(full, ax_i)):
+                    for k in range(n_out):
+                        if k <= n_out // 2:
+                            v = x.items[src[k]].expr if k < m else sp.Integer(0)
+                            if k == 0 or (n_out % 2 == 0 and k == n_out // 2):
+                                v = sp.re(v)
+                        else:
+                            kk = n_out - k
+                            v = sp.conjugate(x.items[src[kk]].expr) if kk < m else sp.Integer(0)
+                        full.items[dst[k]] = Num(v)
+                out = nd_dft(ev, full, ax_i, None, True)
+                out = out.map(lambda e: Num(sp.re(sp.expand(e.expr, complex=True))))
+            else:
+                out = nd_dft(ev, x, ax_i, n_i, fname == "IFFT")
             out.dtype = getattr(x, "dtype", None)
             return out
         if not isinstance(x, Num):
@@ -2514,6 +2649,7 @@ EXT = {
     "dask.array.fft.rfftfreq": lambda ev, a, k, fr, n: h_rfftfreq(ev, a, k, fr, n, backend="dask"),
     "dask.array.fft.fftfreq": lambda ev, a, k, fr, n: h_fftfreq(ev, a, k, fr, n, backend="dask"),
     "numpy.zeros": h_zeros, "numpy.ones": lambda ev, a, k, fr, n: h_zeros(ev, a, k, fr, n, fill=1),
+    "numpy.full": lambda ev, a, k, fr, n: h_full(ev, a, k, fr, n),
     "numpy.array": h_array, "numpy.asarray": h_array, "numpy.asanyarray": h_array,
     "dask.array.asanyarray": lambda ev, a, k, fr, n: a[0].like(a[0].expr, backend="dask") if isinstance(a[0], Num) else a[0],
     "dask.array.asarray": lambda ev, a, k, fr, n: a[0].like(a[0].expr, backend="dask") if isinstance(a[0], Num) else a[0],
